@@ -132,10 +132,11 @@ Proof.
     f_equal; [apply setting_lines_spec; assumption|apply IH; auto].
 Qed.
 
-(* F-C19-2: a marker on a function declaration is neither a converter nor an error *)
-Lemma funcdecl_marker_ignored_refuted :
-  exists doc, has_marker x_converter_marker doc = true /\ parse_decl (DFunc doc) = Ok [].
-Proof. exists [LineC (SP :: x_converter_marker)]. split; [vm_compute; reflexivity|reflexivity]. Qed.
+(* (F-C19-2, fixed) a marker on a function declaration is an error, no marker: nothing *)
+Lemma funcdecl_marker doc :
+  parse_decl (DFunc doc) =
+  if has_marker x_converter_marker doc || has_marker x_variables_marker doc then Diag E_ON_FUNC else Ok [].
+Proof. reflexivity. Qed.
 
 Example marked_example :
   let d := {| d_tok := TType; d_doc := [LineC (SP :: x_converter_marker); LineC (s2r " goverter:name  Foo"%string)];
